@@ -25,6 +25,9 @@ func SafeCmdExecution(executable string, args []string, timeout time.Duration) (
 	defer cancel()
 
 	cmd := exec.CommandContext(ctx, executable, args...)
+	// do not wait for the output pipes forever: processes started by the command
+	// may outlive it (or its kill on timeout) and keep its stdout open
+	cmd.WaitDelay = 250 * time.Millisecond
 	out, err := cmd.Output()
 
 	if ctx.Err() == context.DeadlineExceeded {
